@@ -15,6 +15,7 @@ use crate::simk::{self, effects};
 use crate::world::{World, WorldCfg};
 
 const CANARY: u8 = 0xC5;
+const CANARY2: u8 = 0x3A;
 
 fn bound_val(rng: &mut Rng, len: usize) -> usize {
     match rng.below(9) {
@@ -52,7 +53,13 @@ fn model_range(start: Bound<usize>, end: Bound<usize>, len: usize) -> Option<(us
     if s <= e && e <= len { Some((s, e)) } else { None }
 }
 
-fn run_case(seed: u64, index: u64, rep: &mut Report) {
+/// One pass. `prior` holds the snapshots of the buffer's whole slot taken after
+/// every edit of the first pass, which ran the same edits with different bytes
+/// in all *other* slots: a difference means an edit carried bytes from outside
+/// the slot into it, i.e. it read outside its own slot.
+fn run_once(seed: u64, index: u64, rep: &mut Report, canary: u8, prior: Option<&[Vec<u8>]>) -> Vec<Vec<u8>> {
+    let second = prior.is_some();
+    let mut snaps: Vec<Vec<u8>> = Vec::new();
     let mut rng = Rng::derive(seed, 0xC15, index);
     let pool_size = *rng.pick(&[1u16, 2, 4, 8]);
     let buf_size = match rng.below(6) {
@@ -79,8 +86,8 @@ fn run_case(seed: u64, index: u64, rep: &mut Report) {
         Poll::Ready(o) => {
             // Zero-length reads do not select a buffer on some paths.
             w.ev(format!("setup-read:{}", o.brief()));
-            finish(w, seed, index, rep, 0, "setup-failed".into());
-            return;
+            finish(w, seed, index, rep, 0, "setup-failed".into(), second);
+            return snaps;
         }
         Poll::Pending => panic!("c15: pool read did not resolve"),
     };
@@ -100,9 +107,11 @@ fn run_case(seed: u64, index: u64, rep: &mut Report) {
     // Canaries everywhere but in this slot.
     for (b, addr, len) in &slots {
         if *b != bid {
-            unsafe { wr_bytes(*addr, &vec![CANARY; *len as usize]) };
+            unsafe { wr_bytes(*addr, &vec![canary; *len as usize]) };
         }
     }
+    // The part of the slot the kernel did not fill is unspecified: make it the same in both passes.
+    unsafe { wr_bytes(my.1 + model.len() as u64, &vec![0x11; cap - model.len()]) };
     let mut high_water = model.len();
     let mut ops_done = 0;
     let n_ops = 1 + rng.below(12);
@@ -202,13 +211,28 @@ fn run_case(seed: u64, index: u64, rep: &mut Report) {
             w.violation("C15", "moved-out-of-slot", format!("buffer data now at {:#x}, slot {bid} is at {:#x}", buf.as_slice().as_ptr().addr(), my.1));
             break;
         }
+        let snap = unsafe { rd_bytes(my.1, cap) };
+        if let Some(prior) = prior {
+            if let Some(p) = prior.get(snaps.len()) {
+                if let Some(off) = (0..cap).find(|i| p[*i] != snap[*i]) {
+                    w.violation("C15", "read-outside-own-slot", format!("after [{desc}] byte {off} of the buffer's slot is {:#04x}; with {CANARY:#04x} instead of {canary:#04x} in the other slots the same edits leave {:#04x} there: the last call copied bytes from outside its own slot", snap[off], p[off]));
+                    break;
+                }
+            }
+        }
+        snaps.push(snap);
     }
     if !w.viol.is_empty() {
         // The model diverged: the rest would only repeat the finding.
         std::mem::forget(buf);
         w.poisoned = true;
-        finish(w, seed, index, rep, ops_done, desc);
-        return;
+        finish(w, seed, index, rep, ops_done, desc, second);
+        return snaps;
+    }
+    if second {
+        alloc::a10(|| drop(buf));
+        finish(w, seed, index, rep, ops_done, desc, second);
+        return snaps;
     }
     // Re-read into the spare capacity (the kernel appends).
     if rng.chance(1, 2) && !w.poisoned {
@@ -249,8 +273,8 @@ fn run_case(seed: u64, index: u64, rep: &mut Report) {
                 }
                 _ => {
                     w.violation("C15", "reread-failed", "re-read did not resolve with Ok".to_string());
-                    finish(w, seed, index, rep, ops_done, desc);
-                    return;
+                    finish(w, seed, index, rep, ops_done, desc, second);
+                    return snaps;
                 }
             }
         } else {
@@ -260,15 +284,15 @@ fn run_case(seed: u64, index: u64, rep: &mut Report) {
             w.complete(id2, 0, false);
             w.ring_poll();
             let _ = w.poll_slot(j);
-            finish(w, seed, index, rep, ops_done, desc);
-            return;
+            finish(w, seed, index, rep, ops_done, desc, second);
+            return snaps;
         }
     }
     // Nothing outside the slot may have changed.
     for (b, addr, len) in &slots {
         if *b != bid {
             let bytes = unsafe { rd_bytes(*addr, *len as usize) };
-            if let Some(off) = bytes.iter().position(|x| *x != CANARY) {
+            if let Some(off) = bytes.iter().position(|x| *x != canary) {
                 w.violation("C15", "wrote-outside-own-slot", format!("after [{desc}] byte {off} of pool slot {b} changed (the buffer lives in slot {bid})"));
             }
         }
@@ -286,14 +310,32 @@ fn run_case(seed: u64, index: u64, rep: &mut Report) {
             }
         }
     }
-    finish(w, seed, index, rep, ops_done, desc);
+    finish(w, seed, index, rep, ops_done, desc, second);
+    snaps
 }
 
-fn finish(mut w: World, seed: u64, index: u64, rep: &mut Report, ops: u64, desc: String) {
+fn run_case(seed: u64, index: u64, rep: &mut Report) {
+    let snaps = run_once(seed, index, rep, CANARY, None);
+    if !snaps.is_empty() {
+        run_once(seed, index, rep, CANARY2, Some(&snaps));
+    }
+}
+
+fn finish(mut w: World, seed: u64, index: u64, rep: &mut Report, ops: u64, desc: String, second: bool) {
     w.collect_monitor_violations();
     if !w.poisoned {
         w.teardown();
         w.collect_monitor_violations();
+    }
+    if second {
+        // Only the differential finding of the second pass is new.
+        rep.count("edit_calls_second_pass", ops);
+        for v in std::mem::take(&mut w.viol) {
+            if v.sig == "read-outside-own-slot" {
+                rep.violation(ViolationOut { prop: "C15".into(), sig: v.sig, detail: v.detail, scenario: "c15".into(), seed, index, trace: w.trace.clone() });
+            }
+        }
+        return;
     }
     rep.count("edit_calls", ops);
     rep.absorb_counters();
